@@ -539,9 +539,11 @@ int main(int argc, char **argv) {
   if (argc < 3) { errs() << "usage: llvm2facts in.bc out.json [--inline=leaves|all|none]\n"; return 2; }
   std::string mode = "leaves";
   std::string knownPath, sigsPath, unitName, dumpSigsPath;
+  std::set<std::string> forced;     // functions inlined into their callers whatever their linkage (a public entry point delegating to another one)
   for (int i = 3; i < argc; ++i) {
     StringRef a(argv[i]);
     if (a.startswith("--inline=")) mode = a.substr(9).str();
+    if (a.startswith("--force-inline=")) { SmallVector<StringRef, 4> parts; a.substr(15).split(parts, ','); for (auto &p : parts) if (!p.empty()) forced.insert(p.str()); }
     if (a.startswith("--known=")) knownPath = a.substr(8).str();
     if (a.startswith("--sigs=")) sigsPath = a.substr(7).str();
     if (a.startswith("--unit=")) unitName = a.substr(7).str();
@@ -647,6 +649,11 @@ int main(int argc, char **argv) {
           F.removeFnAttr(Attribute::NoInline); F.removeFnAttr(Attribute::OptimizeNone);
           F.addFnAttr(Attribute::AlwaysInline); foldednames.push_back(F.getName().str());
         }
+    for (Function &F : *M)
+      if (!F.isDeclaration() && forced.count(F.getName().str())) {
+        F.removeFnAttr(Attribute::NoInline); F.removeFnAttr(Attribute::OptimizeNone);
+        F.addFnAttr(Attribute::AlwaysInline);
+      }
     ModulePassManager MPM;
     std::string pipe = std::string("always-inline,") + fpipe;
     if (auto e = PB.parsePassPipeline(MPM, pipe)) { errs() << toString(std::move(e)) << "\n"; return 2; }
